@@ -639,6 +639,9 @@ class Consumer(object):
             # Make sure we got a valid offset back. Kafka uses -1 to indicate
             # no committed offset was retrieved
             if response.offset == OFFSET_NOT_COMMITTED:
+                # Whatever an earlier life of this object committed, the
+                # group now has no committed offset
+                self._last_committed_offset = None
                 if self.auto_offset_reset == OFFSET_LATEST:
                     self._fetch_offset = OFFSET_LATEST
                 else:
